@@ -302,6 +302,10 @@ def run_split(case):
         r = _call(f, src_of(), sv)
         if r != ('ok', exp_s):
             return out.fail('c09.%s.mismatch' % name, '%s(%r, %r) -> %r, str.%s gives %r' % (name, items, sv, r, name, exp_s))
+        if not all(a is b for a, b in zip(r[1], exp_s)):
+            # the elements handed back must be the caller's own objects, not equal stand-ins (1 for 1.0 / True, ...)
+            return out.fail('c09.%s.element-replaced' % name, '%s(%r, %r) -> %r: an element was replaced by an equal object, expected exactly %r' % (
+                name, items, sv, r[1], exp_s))
         ri = _call(lambda: list(fi(src_of(), sv)))
         if ri != ('ok', exp_s):
             return out.fail('c09.%s.iter-differs' % name, '%s_iter(%r, %r) -> %r' % (name, items, sv, ri))
@@ -316,7 +320,7 @@ def strat_group(tier):
         'sub': st.just('group'),
         'seq': st.lists(st.integers(0, 11), max_size=30),
         'form': _forms,
-        'key': st.sampled_from(['none', 'mod3', 'attr', 'lower']),
+        'key': st.sampled_from(['none', 'mod3', 'attr', 'lower', 'attr_missing']),
         'transform': st.booleans(), 'filter': st.booleans(),
         'listkeys': st.lists(st.integers(0, 3), max_size=30),
     })
@@ -338,6 +342,12 @@ def run_group(case):
     elif key == 'attr':
         items = [VALS[i] for i in case['seq']]
         kf, karg = (lambda x: getattr(x, 'real', x)), 'real'
+    elif key == 'attr_missing':
+        # an attribute name none of the items has: the item itself is the key.  Every item is a freshly built object, so
+        # duplicates are equal but never identical (tuples, run-time strings, ints above the small-int cache)
+        items = [[tuple([i % 4, 'x']), ''.join(['s', str(i % 3)]), int(str(1000 + i % 3)), float(i % 2)][i % 4] for i in case['seq']]
+        kf, karg = (lambda x: x), 'no_such_attribute'
+        out.label('string_key_attribute_missing')
     else:
         items = [VALS[i] if i % 2 else SVALS[i] for i in case['seq']]
         kf, karg = (lambda x: x), None
